@@ -60,8 +60,10 @@ TABLE.update({
            ('C14_invariant_of_every_history', 'history_inv')]),
  'C15h': ('Automata Sys AutomataHistory', 'C15, history level: no timestamp from the future; the life-cycle table applies in every reachable state; the tick leaves the session automaton alone',
           [('C15_after_any_history', 'C15_history_invariant'), ('C15_flow_after_any_history', 'C15_history_flow'), ('C15_tick_after_any_history', 'C15_history_tick')]),
- 'C16h': ('Automata Sys TableProofs AutomataHistory', 'C16, history level: the table invariant holds after any history through the frame flow and the tick, not only through the table API',
-          [('C16_flow_preserves', 'flow_table_inv'), ('C16_tick_preserves', 'tick_table_inv'), ('C16_after_any_history', 'C16_history_flow')]),
+ 'C16h': ('Automata Sys TableProofs AutomataHistory SpecExec DictRefinement', 'C16, history level: the table invariant holds after any history through the frame flow and the tick, not only through the table API; the executable dictionary used as run-time oracle refines the table',
+          [('C16_flow_preserves', 'flow_table_inv'), ('C16_tick_preserves', 'tick_table_inv'), ('C16_after_any_history', 'C16_history_flow'),
+           ('C16_dictionary_refines_any_history', 'dict_history_refines'), ('C16_dictionary_observations_agree', 'dict_history_observations'), ('C16_dictionary_add', 'dict_add_refines'),
+           ('C16_dictionary_tick', 'dict_tick_refines'), ('C16_dictionary_all_complete', 'dict_all_complete_refines'), ('C16_dictionary_count', 'dict_count')]),
 })
 def main():
     only = sys.argv[1:]
